@@ -229,6 +229,9 @@ func main() {
 		}
 		finds, implPacks, implState, nPack := j.res.Finds, j.res.Packs, j.res.State, j.res.NPack
 		rep.CountN("free:queue-drops", j.res.Drops)
+		if j.res.Incon {
+			rep.Count("reconf:upper-time-bound-not-judged-under-load")
+		}
 		rep.Case(c.canon(), nPack > 0)
 		distribution(rep, c, implPacks)
 		if i%397 == 0 {
